@@ -100,6 +100,14 @@ Proof.
   rewrite Forall_forall in Hf. apply Nat.eqb_eq. now apply Hf.
 Qed.
 
+Lemma esc_rows_width : forall (rows : list (list string)) (k : nat),
+  Forall (fun r => List.length r = k) rows ->
+  Forall (fun r => List.length r = k) (map (map esc_cell) rows).
+Proof.
+  intros rows k Hf. apply Forall_forall. intros r Hin. apply in_map_iff in Hin as [r0 [<- Hin0]].
+  rewrite map_length. rewrite Forall_forall in Hf. now apply Hf.
+Qed.
+
 Lemma forallb_app' : forall {A} (p : A -> bool) l1 l2,
   forallb p l1 = true -> forallb p l2 = true -> forallb p (l1 ++ l2) = true.
 Proof. intros. rewrite forallb_app. now rewrite H, H0. Qed.
@@ -120,8 +128,8 @@ Proof.
   repeat (apply forallb_app'); try reflexivity; try apply desc_blocks_ok.
   - now destruct (m_static m).
   - destruct (m_sigs m) as [|s r] eqn:E; [reflexivity|].
-    cbn [forallb table_ok]. rewrite andb_true_r.
-    apply (forallb_width _ 8). apply rows_sigs_width.
+    unfold mk_table. cbn [forallb table_ok]. rewrite andb_true_r.
+    apply (forallb_width _ 8). apply esc_rows_width, rows_sigs_width.
 Qed.
 
 Lemma nif_blocks_ok : forall x, forallb table_ok (nif_blocks x) = true.
@@ -154,16 +162,16 @@ Lemma enum_blocks_ok : forall e, forallb table_ok (enum_blocks e) = true.
 Proof.
   intro e. unfold enum_blocks.
   repeat (apply forallb_app'); try reflexivity; try apply desc_blocks_ok.
-  cbn [forallb table_ok]. rewrite andb_true_r.
-  apply (forallb_width _ 3). apply map_width. reflexivity.
+  unfold mk_table. cbn [forallb table_ok]. rewrite andb_true_r.
+  apply (forallb_width _ 3). apply esc_rows_width, map_width. reflexivity.
 Qed.
 
 Lemma appendix_blocks_ok : forall n, forallb table_ok (appendix_blocks n) = true.
 Proof.
   intro n. unfold appendix_blocks. apply forallb_app'.
-  - cbn [forallb table_ok]. rewrite !andb_true_r.
-    rewrite (forallb_width _ 9) by (apply map_width; reflexivity).
-    rewrite (forallb_width _ 4) by (apply map_width; reflexivity). reflexivity.
+  - unfold mk_table. cbn [forallb table_ok]. rewrite !andb_true_r.
+    rewrite (forallb_width _ 9) by (apply esc_rows_width, map_width; reflexivity).
+    rewrite (forallb_width _ 4) by (apply esc_rows_width, map_width; reflexivity). reflexivity.
   - apply forallb_flat_map. intros; apply enum_blocks_ok.
 Qed.
 
@@ -220,7 +228,7 @@ Proof.
   intros k m. unfold msg_blocks. rewrite !headings_app, headings_desc.
   assert (Hs : headings k (if m_static m then [] else [Para (dec_hex_line "Message ID" (m_id m))]) = [])
     by now destruct (m_static m).
-  assert (Ht : headings k (match m_sigs m with [] => [] | _ :: _ => [Table sig_header (rows_sigs 0 (m_sigs m))] end) = [])
+  assert (Ht : headings k (match m_sigs m with [] => [] | _ :: _ => [mk_table sig_header (rows_sigs 0 (m_sigs m))] end) = [])
     by now destruct (m_sigs m).
   rewrite Hs, Ht. cbn -[Nat.eqb]. destruct (Nat.eqb 4 k); reflexivity.
 Qed.
@@ -373,7 +381,7 @@ Proof. intro. unfold desc_blocks. now destruct (String.eqb d ""). Qed.
 
 Lemma msg_tables : forall m,
   tables (msg_blocks m) =
-  match m_sigs m with [] => [] | _ => [Table sig_header (rows_sigs 0 (m_sigs m))] end.
+  match m_sigs m with [] => [] | _ => [mk_table sig_header (rows_sigs 0 (m_sigs m))] end.
 Proof.
   intro m. unfold msg_blocks. rewrite !tables_app, tables_desc.
   assert (Hs : tables (if m_static m then [] else [Para (dec_hex_line "Message ID" (m_id m))]) = [])
@@ -418,7 +426,7 @@ Qed.
 Lemma md_signal_rows_lemma : forall n m, In m (msgs_of_net n) ->
   seg (blocks n) (msg_blocks m)
   /\ tables (msg_blocks m) =
-       match m_sigs m with [] => [] | _ => [Table sig_header (rows_sigs 0 (m_sigs m))] end
+       match m_sigs m with [] => [] | _ => [mk_table sig_header (rows_sigs 0 (m_sigs m))] end
   /\ Forall2 row_matches (rows_sigs 0 (m_sigs m)) (occs 0 (m_sigs m)).
 Proof.
   intros n m Hin. split; [now apply msg_segment|]. split; [apply msg_tables|apply rows_sigs_occs].
@@ -513,16 +521,18 @@ Qed.
 Lemma md_appendix_exact_lemma : forall n, well_formed n ->
   (exists pre, blocks n = pre ++ appendix_blocks n)
   /\ tables (appendix_blocks n) =
-       Table type_header (map type_row (types_listed n))
-       :: Table unit_header (map unit_row (units_listed n))
-       :: map (fun e => Table value_header (map value_row (se_values e))) (enums_listed n)
+       mk_table type_header (map type_row (types_listed n))
+       :: mk_table unit_header (map unit_row (units_listed n))
+       :: map (fun e => mk_table value_header (map value_row (se_values e))) (enums_listed n)
   /\ headings 4 (appendix_blocks n) = map se_name (enums_listed n)
   /\ lists_exactly st_id (types_listed n) (all_types n)
   /\ lists_exactly su_id (units_listed n) (all_units n)
   /\ lists_exactly se_id (enums_listed n) (all_enums n).
 Proof.
   intros n [Ht [Hu He]]. split; [apply appendix_in_blocks|]. split; [|split].
-  - unfold appendix_blocks. rewrite tables_app. cbn [tables filter app]. do 2 f_equal.
+  - unfold appendix_blocks. rewrite tables_app. unfold mk_table at 1 2. cbn [tables filter app].
+    fold (mk_table type_header (map type_row (types_listed n))).
+    fold (mk_table unit_header (map unit_row (units_listed n))). do 2 f_equal.
     fold tables. induction (enums_listed n) as [|e r IH]; [reflexivity|].
     cbn [flat_map map]. rewrite tables_app, IH. unfold enum_blocks.
     rewrite !tables_app, tables_desc. reflexivity.
